@@ -126,7 +126,15 @@ pub fn check(case: &Case, obs: &mut Obs) -> CaseResult {
     };
     let sh = shape(cfg);
     let mut interesting_probe = false;
-    for t in &case.targets {
+    // every probe hands the target over in the same reused buffer (same address; targets of equal length one after
+    // the other): only the characters may decide the routing
+    let mut probe_order: Vec<&String> = case.targets.iter().collect();
+    probe_order.sort_by_key(|t| t.len());
+    let mut buf = String::with_capacity(8192);
+    for t in probe_order {
+        buf.clear();
+        buf.push_str(t);
+        let t = &buf;
         let eff = cfg.effective(t);
         let eff_txt = cfg.effective_textual(t);
         if eff != eff_txt {
@@ -155,6 +163,22 @@ pub fn check(case: &Case, obs: &mut Obs) -> CaseResult {
                 "target {:?} level {:?}: delivered {:?}, routing prescribes {:?} (effective logger {:?})",
                 t, level, got, expected, eff.map(|i| cfg.loggers[i].name.clone())
             );
+        }
+    }
+    // the same probes through the logger built from the permuted declaration order (a loop of its own, so that
+    // consecutive lookups of one logger see consecutive targets)
+    let mut probe_order: Vec<&String> = case.targets.iter().collect();
+    probe_order.sort_by_key(|t| std::cmp::Reverse(t.len()));
+    for t in probe_order {
+        buf.clear();
+        buf.push_str(t);
+        let t = &buf;
+        if cfg.effective(t) != cfg.effective_textual(t) {
+            continue;
+        }
+        for (li, level) in LEVELS.iter().enumerate().rev() {
+            let expected = cfg.route(t, *level);
+            let msg = format!("{}", li);
             with_record(t, *level, &msg, |r| logger2.log(r));
             let got2 = drain_multiset(&sink2);
             ensure!(
